@@ -89,11 +89,11 @@ func c14History(c *core.Ctx, env *idxEnv, r *rand.Rand, h int) {
 		for _, idx := range []struct{ name, field string }{{"k", "k"}, {"x2", "k2"}} {
 			nk, nok := "", false
 			if qc.After() != nil {
-				nk, nok = valKey(qc.After(), idx.field)
+				nk, nok = idxKeyOf(qc.After(), idx.field)
 			}
 			ok2, okok := "", false
 			if qc.Before() != nil {
-				ok2, okok = valKey(qc.Before(), idx.field)
+				ok2, okok = idxKeyOf(qc.Before(), idx.field)
 			}
 			if nok {
 				res, err := env.qs.Query(idxQuery{Index: idx.name, Prefix: nk, Limit: -1}.values())
@@ -131,7 +131,7 @@ func c14History(c *core.Ctx, env *idxEnv, r *rand.Rand, h int) {
 				if v == nil {
 					return false
 				}
-				k, ok := valKey(v, field)
+				k, ok := idxKeyOf(v, field)
 				if !ok || !strings.HasPrefix(k, q.Prefix) {
 					return false
 				}
@@ -207,11 +207,11 @@ func c14History(c *core.Ctx, env *idxEnv, r *rand.Rand, h int) {
 		for _, f := range []string{"k", "k2"} {
 			bk, bok := "", false
 			if before != nil {
-				bk, bok = valKey(before, f)
+				bk, bok = idxKeyOf(before, f)
 			}
 			ak, aok := "", false
 			if after != nil {
-				ak, aok = valKey(after, f)
+				ak, aok = idxKeyOf(after, f)
 			}
 			if bok != aok || bk != ak {
 				keyChanged = true
@@ -253,11 +253,11 @@ func c14KeyChanged(before, after interface{}) bool {
 	for _, f := range []string{"k", "k2"} {
 		bk, bok := "", false
 		if before != nil {
-			bk, bok = valKey(before, f)
+			bk, bok = idxKeyOf(before, f)
 		}
 		ak, aok := "", false
 		if after != nil {
-			ak, aok = valKey(after, f)
+			ak, aok = idxKeyOf(after, f)
 		}
 		if bok != aok || bk != ak {
 			return true
